@@ -36,6 +36,18 @@ CHECKS = {
  "C13": ("exploration", "trace-token monitor (SURVIVED token after an overrunning command must never appear) on the real TaskRunner + process liveness + re-confirmed time bound",
          "overrunning shapes at every command position and in hooks, with/without allow_failure, timeouts 100ms..1s; fitting commands and 'each command gets the full timeout' cases; duration spellings through the binary.",
          "overrun margin >=20x timeout makes the main oracle a safety observation; the wall-clock bound is secondary and re-confirmed", "DESIGN.md §4 C13"),
+ "C09": ("exploration", "precedence-table oracle over values printed by commands run through the binary with a controlled parent environment",
+         "every non-empty subset of the six env levels (and of the five for direct runs) defines its own name under ascending, descending and shuffled value assignments; every subset of the three dir levels x two start directories with pwd in hooks and commands.",
+         "names defined only by taskctl itself are not examined", "DESIGN.md §4 C09"),
+ "C10": ("exploration", "precedence-table oracle for template variables, verbatim comparison of argument vectors, undefined-variable trace monitor (process boundary)",
+         "all subsets of the four variable levels; argument vectors containing target names, a=b, -v, --x and `--`; undefined variable at every command position, in before and dir.",
+         "argv with `--` before any target is outside the statement", "DESIGN.md §4 C10"),
+ "C11": ("exploration", "byte-exact comparison of captured output and of what dependants read; porcupine linearizability check of recorded producer/consumer run histories; race detector",
+         "producers with generated contents up to 64 KiB, printable-ASCII task names, exportAs, variations; consumers in several DAG positions; histories recorded at the Run boundary are checked against a per-key register model.",
+         "independent re-implementation of the naming rule; porcupine v1.3.0; checker timeout = inconclusive", "DESIGN.md §4 C11"),
+ "C12": ("fault_enumeration", "cancel injected at enumerated points (verif hooks park the runs) in child processes; crash / dead-lock-dump / trace-marker monitors; free-running -race variant",
+         "injection point x tasks in flight (0..4) x stages waiting (0..3) x trigger x {once, twice, concurrent}; the parent observes crashes and classifies goroutine dumps; offline trace check for starts after CANCEL_RET and for interrupted tasks reporting success.",
+         "bounded progress (12 s) stands in for 'returns'; dead-lock is decided from the goroutine dump, slowness is re-confirmed", "DESIGN.md §4 C12"),
 }
 PENDING = {}
 
